@@ -65,6 +65,8 @@ def cmd_term(c, events, pm: M.PathMap) -> str:
         names = T.lst(f'({b(x)}, {b(y)})' for x, y in zip(keys, _pad(tmps, len(keys))))
         return f'CCopy {T.nlist(c[1])} {fname(c[2])} {names}'
     if k == 'move':
+        if keys:        # destination = source: copy + delete, a new key per message
+            tmps = [x for pair in zip(keys, _pad(tmps, len(keys))) for x in pair]
         return f'CMove {T.nlist(c[1])} {fname(c[2])} {T.lst(b(x) for x in tmps)}'
     if k == 'expunge':
         return 'CExpunge'
@@ -217,7 +219,7 @@ class Shadow:
             dst = self.folders.get(tuple(c[2]))
             if dst is None:
                 return
-            for u in c[1]:
+            for u in list(c[1]):
                 if u in src['msgs']:
                     dst['msgs'][dst['next']] = (set(src['msgs'][u][0]), src['msgs'][u][1])
                     dst['next'] += 1
@@ -282,6 +284,8 @@ def gen_history(rng, n: int, *, weights: dict | None = None) -> list:
             if not sel or not selmsgs or (k == 'move' and sel[1]):
                 continue
             others = [f for f in folders if f != sel[0]] if k == 'move' else folders
+            if k == 'move' and (rng.random() < 0.15 or not others):
+                others = [sel[0]]       # into the selected mailbox itself
             if not others:
                 continue
             g = rng.choice(others)
@@ -563,7 +567,7 @@ def canon_dump(d: dict, known=None) -> dict:
 
 def kill_matches_copy(res: dict, kill: dict) -> bool:
     """A real kill at k leaves the same state as the copy taken at k."""
-    snap = [c for c in res['crashes'] if c['k'] == kill['k']]
+    snap = [c for c in res['crashes'] if c['k'] == kill['k'] and not c.get('post')]
     if not snap:
         return True
     s = snap[0]
